@@ -1,6 +1,7 @@
 package gen
 
 import (
+	"sort"
 	"strings"
 	"sync"
 	"unicode"
@@ -301,6 +302,82 @@ func PadToNFKDLen(s string, n int) string {
 	}
 	return s + strings.Repeat("x", n-d)
 }
+
+var (
+	highExpOnce  sync.Once
+	highExpRunes []rune
+)
+
+// HighExpansionString draws a string made mostly of the runes whose NFKD form is longest
+// relative to their UTF-8 length (U+FDFA, U+FDFB, squared katakana words, U+2057, ...): the inputs
+// on which a normaliser's output outgrows any "a few times the input" buffer bound.
+func HighExpansionString() *rapid.Generator[string] {
+	return rapid.Custom(func(t *rapid.T) string {
+		buildInv()
+		highExpOnce.Do(func() {
+			type re struct {
+				r     rune
+				ratio float64
+			}
+			var all []re
+			for _, r := range decompRunes {
+				all = append(all, re{r, float64(len(norm.NFKD.String(string(r)))) / float64(utf8.RuneLen(r))})
+			}
+			sort.Slice(all, func(i, j int) bool { return all[i].ratio > all[j].ratio })
+			for i := 0; i < 64 && i < len(all); i++ {
+				highExpRunes = append(highExpRunes, all[i].r)
+			}
+		})
+		var b strings.Builder
+		for n := rapid.IntRange(1, 12).Draw(t, "n"); n > 0; n-- {
+			b.WriteRune(highExpRunes[rapid.IntRange(0, len(highExpRunes)-1).Draw(t, "hx")])
+			if rapid.IntRange(0, 4).Draw(t, "filler") == 0 {
+				b.WriteString(rapid.SampledFrom([]string{" ", "a", "\u3000", "x "}).Draw(t, "f"))
+			}
+		}
+		return b.String()
+	})
+}
+
+// BlockEdgeRunes are code points at the edges of the blocks the lists' scripts live in: the last
+// assigned, the first unassigned, the neighbours of the block end.
+var BlockEdgeRunes = func() []rune {
+	var out []rune
+	add := func(lo, hi rune) {
+		for r := lo; r <= hi; r++ {
+			out = append(out, r)
+		}
+	}
+	add(0xd7a0, 0xd7b2)   // Hangul syllables end at U+D7A3; block ends at U+D7AF
+	add(0xabfe, 0xac02)   // Hangul syllables start
+	add(0x10fe, 0x1102)   // Hangul jamo start
+	add(0x11f8, 0x1202)   // jamo end
+	add(0x303e, 0x3043)   // Hiragana start
+	add(0x3094, 0x30a2)   // Hiragana end / Katakana start (U+3097, U+3098 unassigned; U+3099.. marks)
+	add(0x30fa, 0x3102)   // Katakana end
+	add(0x4dfe, 0x4e02)   // CJK unified start
+	add(0x9ffc, 0xa002)   // CJK unified end
+	add(0xf8fe, 0xf902)   // CJK compatibility ideographs start
+	add(0xfa6c, 0xfa72)   // gap inside CJK compatibility ideographs
+	add(0xfad8, 0xfb07)   // end of compatibility ideographs, alphabetic presentation forms
+	add(0x7e, 0x82)       // ASCII / C1 edge
+	add(0xbe, 0xc1)       // Latin-1 compat / letters edge
+	add(0xfe, 0x102)      // Latin-1 / Latin Extended-A edge
+	add(0x2fe, 0x302)     // combining diacritics start
+	add(0x36e, 0x372)     // combining diacritics end
+	add(0xfefe, 0xff02)   // BOM, full-width start
+	add(0xff5d, 0xff67)   // full-width end / half-width katakana
+	add(0xfffc, 0xffff)   // specials / noncharacters
+	add(0x1fffe, 0x20002) // plane 1 end / plane 2 start
+	add(0x10fffe, 0x10ffff)
+	var valid []rune
+	for _, r := range out {
+		if !(r >= 0xd800 && r <= 0xdfff) {
+			valid = append(valid, r)
+		}
+	}
+	return valid
+}()
 
 // StartsWithMark reports whether s begins with a combining mark.
 func StartsWithMark(s string) bool {
